@@ -133,6 +133,18 @@ def programs(tier, seed):
                     for ntruths in itertools.product([False, True], repeat=1 + nsh[0]):
                         t = T(rng)
                         out.append(wrap(t, t.construct(sh, truths, pos, (nsh, ntruths))))
+    # a taken branch whose LAST line is the `.endif` of an inner construct that was left by skipping (no arm taken),
+    # with the outer `.elif`/`.else` on the very next line: the outer chain is closed, its later conditions are not even
+    # evaluated
+    for inner in (['.if 0', '  ldi r17, 2', '.endif'], ['.ifdef UNDEFD', '  garbage ((', '.endif'], ['.if KF', '  nop', '.elif 0', '  nop', '.endif'],
+                  ['.ifndef DEFD', '  .error "no"', '.endif']):
+        for tail in (['.elif 1', '  ldi r18, 3', '.else', '  ldi r19, 4', '.endif'], ['.elif 0', '  ldi r18, 3', '.else', '  ldi r19, 4', '.endif'],
+                     ['.elif 1 / KF', '  ldi r18, 3', '.endif'], ['.elif nosuch_symbol_c08', '  .error "dead"', '.elif 1', '  ldi r20, 5', '.endif'],
+                     ['.else', '  ldi r19, 4', '.endif']):
+            for head in (['.if 1'], ['.if 0', '  ldi r21, 9', '.elif KT']):
+                t = T(rng)
+                sel_head = [(head[0], False)] + [(l, False) for l in head[1:]]
+                out.append(wrap(t, sel_head + [('  ldi r16, 1', True)] + [(l, False) for l in inner] + [(l, False) for l in tail] + [('  nop', True)]))
     # random sequences and deeper nesting
     n = 600 if tier == 'quick' else 6000
     for _ in range(n):
